@@ -567,6 +567,9 @@ TRUSTED = [
     "jax.random.multivariate_normal(key, mean, cov, shape) has shape shape + (n,); jnp.clip(x, lo, hi) = min(max(x, lo), hi)",
     "IEEE ordering of +-inf against finite numbers: -inf < x < +inf (pyvc.core.compare)",
 ]
+
+# non-finite fitness values are outside real arithmetic: bounded native stand-in on the real code
+TASKS.append(Task("native.nonfinite_fitness", native="c16_cmaes", bounded="21 fitness sequences containing NaN / +inf / -inf / ties x 3 (n_params, population) x minimise/maximise"))
 ASSUMPTIONS = [
     "n_params >= 1 and population size n_samples_per_update >= 2 (population 1 gives mu = 0 and a ZeroDivisionError in CMAESConfig.create - outside the property's quantifier)",
     "update_search_distribution / set_evaluation_feedback / get_next_parameters are verified against ANY configuration satisfying the well-formed predicate "
